@@ -320,10 +320,10 @@ def wireRaw (t : List Desc) (o : SubsetOut) : CM Wired :=
   | .ok (ns, s) => .ok { nodes := ns, st := s }
 
 /-- fuel that suffices for every acyclic attribute chain.  A chain never visits a value node twice, so `next + 2` is
-    enough; `2 * next + 2` is used because that bound has a short proof (Lemmas/WireResolve.lean: along a chain the
+    enough; `2 * next + 3` is used because that bound has a short proof (Lemmas/WireResolve.lean: along a chain the
     owners strictly increase, each owner accounts for at most two levels).  Running out of fuel = an attribute
     cycle; the result does not depend on the fuel once it suffices. -/
-def Wired.fuel (w : Wired) : Nat := 2 * w.st.next + 2
+def Wired.fuel (w : Wired) : Nat := 2 * w.st.next + 3
 
 /-- the node tree as every later reader sees it (`decoded_nodes` after `wire()`); an attribute cycle
     is reported here although Python only fails when the tree is rendered or queried -/
